@@ -291,7 +291,7 @@ theorem step_addColumn_none (h : Rel m db) (t : String) (ht : t ≠ "") (c : Col
       rw [hnames]; intro hm
       rw [(hasCol_iff tb c.name).mpr (by simpa [ColDef.toColumn] using hm)] at hc; cases hc
     have hg := (hi.cols.get?_none_iff _).mpr hnot
-    have hs := Table.addColumn_append tm c.toColumn true hg hp
+    have hs := Table.addColumn_append tm c.toColumn true (pg := false) hg hp
     refine ⟨_, hs, Table.appended_inv tm _ hi hg, rfl, Table.appended_allAdd tm _ ha rfl, rfl, hp, ?_, ?_⟩
     · rw [Table.appended_names, hnames, hcols]; rfl
     · refine typesOK_add c hty (by rw [hcolsS]; intro y hy; exact List.mem_append_left _ hy)
@@ -504,7 +504,7 @@ theorem addCols_rel (t : String) (cols : List ColDef) : ∀ (m : Migration) (dbk
       intro tm hi ha hp hnames hty
       have hnot : c.toColumn.name ∉ tm.colNames := by rw [hnames]; exact hfresh
       have hg := (hi.cols.get?_none_iff _).mpr hnot
-      have hs := Table.addColumn_append tm c.toColumn true hg hp
+      have hs := Table.addColumn_append tm c.toColumn true (pg := false) hg hp
       refine ⟨_, hs, Table.appended_inv tm _ hi hg, rfl, Table.appended_allAdd tm _ ha rfl, rfl, hp, ?_, ?_⟩
       · rw [Table.appended_names, hnames]
         show _ = (tbS.cols ++ [(colOf c).1]).map (·.name)
